@@ -20,7 +20,7 @@ import re
 import numpy as np
 from scipy.spatial.transform import Rotation as R
 
-from harness.common import run_guarded, COQ, Lock, sh
+from harness.common import run_guarded, COQ, Lock, sh, REPO
 from harness import c14_quad as Q
 
 import magpylib as magpy
@@ -30,8 +30,8 @@ MAGNETS = ("Cuboid", "Cylinder", "CylinderSegment", "Sphere", "Tetrahedron", "Tr
 CURRENTS = ("Circle", "Polyline")
 KINDS = MAGNETS + ("Dipole",) + CURRENTS
 # more cases where the code is most intricate (2500 lines of case distinctions)
-WEIGHT = {("CylinderSegment", "flux"): 2.5, ("CylinderSegment", "circ"): 1.5,
-          ("TriangularMesh", "flux"): 4.0, ("Tetrahedron", "flux"): 2.0, ("Circle", "circ"): 2.0, ("Polyline", "circ"): 2.0}
+WEIGHT = {("CylinderSegment", "flux"): 1.5, ("CylinderSegment", "circ"): 1.5,
+          ("TriangularMesh", "flux"): 3.0, ("Tetrahedron", "flux"): 2.0, ("Circle", "circ"): 2.0, ("Polyline", "circ"): 2.0}
 # rough cost of one field evaluation (seconds per observer), used only to size budgets
 COST = {"Cuboid": 3e-6, "Cylinder": 4e-6, "CylinderSegment": 1.3e-4, "Sphere": 1e-6, "Tetrahedron": 6e-6,
         "TriangularMesh": 6e-5, "Dipole": 1e-6, "Circle": 1e-6, "Polyline": 4e-6}
@@ -85,11 +85,13 @@ def gen_source(rng, kind):
         r2 = s * rng.uniform(0.4, 1)
         x = rng.random()      # solid sector, ordinary ring sector, thin shell
         r1 = 0.0 if x < 0.25 else r2 * rng.uniform(0.1, 0.8) if x < 0.85 else r2 * rng.uniform(0.9, 0.98)
-        # the section may be described with angles in any of the admissible windows of [-360, 360]
+        # section angles are periodic (valid beyond +-360 since /repo 526c29b): every window, on both sides,
+        # with spans that cross a multiple of 360
         x = rng.random()
-        phi1 = rng.uniform(-360, -180) if x < 0.35 else rng.uniform(-180, 0) if x < 0.6 else rng.uniform(0, 300)
+        phi1 = (rng.uniform(-360, -180) if x < 0.25 else rng.uniform(-180, 0) if x < 0.4 else
+                rng.uniform(0, 300) if x < 0.65 else rng.uniform(-1100, -360) if x < 0.825 else rng.uniform(300, 1000))
         x = rng.random()      # full ring, span just below 360, ordinary span
-        phi2 = min(360.0, phi1 + (360.0 if x < 0.12 else rng.uniform(340, 359.9) if x < 0.24 else rng.uniform(25, 340)))
+        phi2 = phi1 + (360.0 if x < 0.12 else rng.uniform(340, 359.9) if x < 0.24 else rng.uniform(25, 340))
         src.update(dimension=[r1, r2, s * aniso[2], phi1, phi2], polarization=pol)
     elif kind == "Sphere":
         src.update(diameter=s * rng.uniform(0.3, 1), polarization=pol)
@@ -598,7 +600,7 @@ def touches_magnet(scene, geom):
     return False
 
 
-def evaluate(case, seconds=1.5, min_evals=2e4):
+def evaluate(case, seconds=1.5, min_evals=2e4, inconclusive=None):
     """returns dict(status, value, expected, err, scale, ...); status in ok | fail | inconclusive | skipped"""
     scene = Scene(case)
     geom = Geom(case["geom"])
@@ -619,7 +621,7 @@ def evaluate(case, seconds=1.5, min_evals=2e4):
         F = scene.field(which, np.concatenate([P, anchor]))[:len(P)]
         return np.einsum("ij,ij->i", F, dA), np.linalg.norm(F, axis=1)
 
-    max_evals = int(min(3e6, max(min_evals, seconds / case_cost(case))))
+    max_evals = int(min(3e6, max(min_evals, case.get("min_evals", 0), seconds / case_cost(case))))
     if geom.dim == 1:
         init = max(8, 512 // geom.npatch) if cut else max(8, 64 // geom.npatch)
     else:
@@ -645,7 +647,7 @@ def evaluate(case, seconds=1.5, min_evals=2e4):
         out["rel"] = 0.0 if expected == 0.0 else float("inf")
         out["thr_rel"] = 0.0
         return out
-    if res.err > INCONCLUSIVE * scale:
+    if res.err > (inconclusive or case.get("inconclusive") or INCONCLUSIVE) * scale:
         out["status"] = "inconclusive"
         return out
     # binary64 cancellation noise of the magnet formulas far from the body: absolute, relative to the
@@ -808,6 +810,96 @@ def gen_special_case(rng, law, kind):
     return None
 
 
+def ray_start_constants():
+    """the absolute offset of the ray start point in mask_inside_trimesh, read from the source
+    (fail closed: raises if the literal cannot be found)"""
+    import ast
+    path = os.path.join(REPO, "magpylib", "_src", "fields", "field_BH_triangularmesh.py")
+    tree = ast.parse(open(path).read())
+    for fn in ast.walk(tree):
+        if isinstance(fn, ast.FunctionDef) and fn.name == "mask_inside_trimesh":
+            for node in ast.walk(fn):
+                if (isinstance(node, ast.Call) and getattr(node.func, "attr", "") == "array" and node.args
+                        and isinstance(node.args[0], (ast.List, ast.Tuple)) and len(node.args[0].elts) == 3):
+                    vals = [ast.literal_eval(e) for e in node.args[0].elts]
+                    if all(isinstance(v, (int, float)) for v in vals):
+                        return [float(v) for v in vals]
+    raise LookupError("no 3-vector literal np.array([...]) found in mask_inside_trimesh")
+
+
+def whitebox_mesh_cases(rng, off, full=True):
+    """TriangularMesh bodies placed, in their LOCAL frame, where the inside test's absolute ray-start
+    offset could end up inside the body (before / after its internal normalisation, both signs, three
+    length scales), each with closed boxes across its boundary and in its interior"""
+    off = np.array(off, dtype=float)
+    cases = []
+    for size in (1.0, 1e-3, 1e3):
+        for variant in range(8):
+            if not full and (variant >= 4 or (variant >= 2 and size != 1.0)):
+                continue
+            corners = np.array([[i, j, k] for i in (0, 1) for j in (0, 1) for k in (0, 1)], dtype=float)
+            P0 = corners + (0.5 - corners) * np.array([[rng.uniform(0, 0.2) for _ in range(3)] for _ in range(8)])
+            P0 = P0 * np.array([rng.uniform(0.6, 1.0) for _ in range(3)])
+            P0 -= P0.min(axis=0)
+            ext = P0.max(axis=0)
+            mid_n = 0.5 * ext / ext.max()                     # bbox centre in the code's unit-size copy
+            sg = 1.0 if variant % 2 == 0 else -1.0
+            if variant < 2:        # (pre-normalisation vmin) -+ offset lands in the unit-size body
+                vmin = sg * off + mid_n
+            elif variant < 4:      # the body contains +-offset itself (unnormalised)
+                vmin = sg * off - 0.5 * size * ext
+            elif variant < 6:      # the same in units of the body size
+                vmin = size * (sg * off + mid_n)
+            else:                  # vmin = +-2*offset (start point = +-offset would be a vertex region)
+                vmin = sg * 2 * off - 0.5 * size * ext
+            pts = size * P0 + vmin
+            pol = [rng.uniform(-0.2, 0.2), rng.uniform(-0.2, 0.2), rng.choice([-1, 1]) * rng.uniform(0.6, 1.2)]
+            src = {"type": "TriangularMesh", "pos": [0.0, 0.0, 0.0], "rotvec": [0.0, 0.0, 0.0],
+                   "points": pts.tolist(), "polarization": pol}
+            lo, hi = pts.min(axis=0), pts.max(axis=0)
+            # a box that straddles the top side of the body (J mostly normal to it: an inverted inside test
+            # shows as a flux of order |J| * cut area), and in the full battery one across a lateral side
+            boxes = [([0.5 * (lo[0] + hi[0]), 0.5 * (lo[1] + hi[1]), hi[2]], "top")]
+            if full:
+                boxes.append(([hi[0], 0.5 * (lo[1] + hi[1]), 0.5 * (lo[2] + hi[2])], "side"))
+            for c, name in boxes:
+                half = [0.25 * (hi[k] - lo[k]) * rng.uniform(0.8, 1.2) for k in range(3)]
+                cases.append({"law": "flux", "sources": [src], "coll": None, "focus": 0, "entry": "func",
+                              "inconclusive": 5e-2, "min_evals": 6e4, "place": "whitebox-" + name,
+                              "size_factor": 0.25,
+                              "geom": {"kind": "box", "c": [float(x) for x in c], "a": half,
+                                       "rotvec": [0.0, 0.0, 0.0]}})
+    return cases
+
+
+def whitebox_cylseg_cases(rng, full=True):
+    """CylinderSegment wedges whose section angles cross the multiples of 360 (and 180) at which
+    BHJM_cylinder_segment reduces / aliases angles, on both sides and beyond +-360, each with a closed
+    box that straddles the top face in the part of the wedge just beyond that multiple"""
+    cases = []
+    for mult in (-720.0, -360.0, -180.0, 0.0, 360.0, 720.0):
+        below, beyond = rng.uniform(20, 60), rng.uniform(15, 50)
+        phi1, phi2 = mult - below, mult + beyond
+        r2 = rng.uniform(0.6, 1.2)
+        r1 = r2 * rng.uniform(0.3, 0.6)
+        h = rng.uniform(0.5, 1.2)
+        pol = [rng.uniform(-0.3, 0.3), rng.uniform(-0.3, 0.3), rng.choice([-1, 1]) * rng.uniform(0.6, 1.2)]
+        src = {"type": "CylinderSegment", "pos": [0.0, 0.0, 0.0], "rotvec": [0.0, 0.0, 0.0],
+               "dimension": [r1, r2, h, phi1, phi2], "polarization": pol}
+        spots = [mult + 0.5 * beyond] + ([mult - 0.5 * below] if full or mult == -180.0 else [])
+        for az in spots:
+            rho = 0.5 * (r1 + r2)
+            a = math.radians(az)
+            half = 0.3 * min(r2 - r1, rho * math.radians(min(below, beyond)))
+            case = {"law": "flux", "sources": [src], "coll": None, "focus": 0, "entry": "func",
+                    "inconclusive": 5e-2, "place": "whitebox-top-face", "size_factor": half / math.hypot(r2, 0.5 * h),
+                    "geom": {"kind": "box", "c": [rho * math.cos(a), rho * math.sin(a), 0.5 * h + 0.2 * half],
+                             "a": [half, half * rng.uniform(0.7, 1), half * rng.uniform(0.7, 1)],
+                             "rotvec": [0.0, 0.0, a]}}
+            cases.append(case)
+    return cases
+
+
 def sweep(ctx, n_per_kind, n_coll, seconds, n_special=0, min_evals=2e4):
     rng = ctx.rng
     plan = []
@@ -823,10 +915,27 @@ def sweep(ctx, n_per_kind, n_coll, seconds, n_special=0, min_evals=2e4):
     for kind in KINDS:
         for law in ("flux", "circ"):
             plan += [(law, [kind], "special")] * n_special
+    if "TriangularMesh" in KINDS and n_special:
+        try:
+            off = ray_start_constants()
+            ctx.extra["whitebox_ray_start_offset"] = off
+            import random as _random
+            for c in whitebox_mesh_cases(_random.Random(ctx.seed * 1000 + 14), off, full=ctx.tier != "quick"):
+                plan.append(("flux", ["TriangularMesh"], ("case", c)))
+        except (LookupError, OSError, SyntaxError, ValueError) as e:      # fail closed
+            ctx.add_broken("broken-translator", "C14 white-box battery: ray-start offset of mask_inside_trimesh",
+                           f"{type(e).__name__}: {e}")
+    if "CylinderSegment" in KINDS and n_special:
+        import random as _random
+        for c in whitebox_cylseg_cases(_random.Random(ctx.seed * 1000 + 15), full=ctx.tier != "quick"):
+            plan.append(("flux", ["CylinderSegment"], ("case", c)))
     worst = {}
     for law, kinds, coll in plan:
         try:
-            case = gen_special_case(rng, law, kinds[0]) if coll == "special" else gen_case(rng, law, kinds, coll)
+            if isinstance(coll, tuple):
+                case = coll[1]
+            else:
+                case = gen_special_case(rng, law, kinds[0]) if coll == "special" else gen_case(rng, law, kinds, coll)
         except FieldRaised as e:
             ctx.bump(f"{law}:construction-raised")
             if len(ctx.notes) < 5:
@@ -849,6 +958,8 @@ def sweep(ctx, n_per_kind, n_coll, seconds, n_special=0, min_evals=2e4):
         ctx.bump(f"{law}:{'+'.join(sorted(set(kinds))) if len(kinds) == 1 else 'collection'}")
         if coll == "special":
             ctx.bump(f"{law}:axis-aligned-special")
+        if isinstance(coll, tuple):
+            ctx.bump(f"{law}:whitebox-{kinds[0]}")
         if st in ("ok", "fail"):
             decade = int(math.floor(math.log10(case["size_factor"])))
             ctx.bump(f"size-decade:1e{decade}")
@@ -1189,7 +1300,7 @@ def run(ctx):
             run_guarded(ctx, lambda: correspondence(ctx, ctx.n(600, 6000)), "C14 correspondence")
     big = bool(ctx.broken)
     mult = 4 if big else 1
-    run_guarded(ctx, lambda: sweep(ctx, ctx.n(12, 40) * mult, ctx.n(40, 150) * mult, ctx.n(0.35, 1.0),
+    run_guarded(ctx, lambda: sweep(ctx, ctx.n(12, 40) * mult, ctx.n(30, 150) * mult, ctx.n(0.35, 1.0),
                                    ctx.n(3, 12) * mult, ctx.n(2e4, 3e4)),
                 "C14 quadrature sweep")
 
